@@ -398,7 +398,7 @@ func TestC17Equality(t *testing.T) {
 			vals2[k] = gen.Clone(v)
 		}
 
-		aspects := []string{"none", "type-name", "attr-name", "value", "id", "extra-attr", "extra-rel"}
+		aspects := []string{"none", "type-name", "attr-name", "value", "id", "extra-attr", "extra-rel", "attr-kind"}
 		if len(ts.Rels) > 0 {
 			aspects = append(aspects, "rel-name", "rel-value")
 		}
@@ -428,6 +428,32 @@ func TestC17Equality(t *testing.T) {
 			ts2.Attrs[i].Name = "zz" + old
 			vals2["zz"+old] = vals2[old]
 			delete(vals2, old)
+		case "attr-kind":
+			// The same attribute name with another kind on either side, and
+			// two values that read alike when printed.
+			i := rapid.IntRange(0, len(ts2.Attrs)-1).Draw(t, "i")
+			pair := rapid.SampledFrom([]struct {
+				k1, k2 int
+				v1, v2 any
+			}{
+				{jsonapi.AttrTypeString, jsonapi.AttrTypeInt, "42", 42},
+				{jsonapi.AttrTypeInt8, jsonapi.AttrTypeUint64, int8(7), uint64(7)},
+				{jsonapi.AttrTypeInt16, jsonapi.AttrTypeInt64, int16(-3), int64(-3)},
+				{jsonapi.AttrTypeString, jsonapi.AttrTypeBool, "true", true},
+				{jsonapi.AttrTypeString, jsonapi.AttrTypeBytes, "[1 2 3]", []byte{1, 2, 3}},
+				{jsonapi.AttrTypeUint, jsonapi.AttrTypeUint8, uint(0), uint8(0)},
+				{jsonapi.AttrTypeString, jsonapi.AttrTypeTime, "0001-01-01 00:00:00 +0000 UTC", time.Time{}},
+			}).Draw(t, "lookalike")
+
+			if rapid.Bool().Draw(t, "lookalike-swap") {
+				pair.k1, pair.k2, pair.v1, pair.v2 = pair.k2, pair.k1, pair.v2, pair.v1
+			}
+
+			ts.Attrs = append([]jsonapi.Attr{}, ts.Attrs...)
+			ts.Attrs[i].Type, ts.Attrs[i].Nullable = pair.k1, false
+			ts2.Attrs[i].Type, ts2.Attrs[i].Nullable = pair.k2, false
+			vals[ts.Attrs[i].Name], vals2[ts.Attrs[i].Name] = pair.v1, pair.v2
+			a = build(ts, vals, aWrapped)
 		case "rel-name":
 			i := rapid.IntRange(0, len(ts2.Rels)-1).Draw(t, "i")
 			old := ts2.Rels[i].FromName
